@@ -1291,6 +1291,17 @@ func (x *Exec) enterLoop(fr *Frame, h *ssa.BasicBlock, st *State) *State {
 			if !ok {
 				old = x.initHeap[name]
 			}
+			if old.S == "" {
+				// first touched inside the loop: declare its entry version now
+				hs0 := x.vc.heapSorts[name]
+				if name == "BUF_content" {
+					hs0 = arraySort(SInt, SString)
+				}
+				if hs0 == "" {
+					panic(engErr("internal: heap %s written in a loop has no known sort", name))
+				}
+				old = x.heap(st, heapID{name, hs0})
+			}
 			nh := x.vc.fresh(name, old.Sort)
 			hs.heaps[name] = nh
 			// objects existing at loop entry and written only when fresh keep their contents:
